@@ -320,6 +320,10 @@ def shard(ctx: Ctx) -> None:
         res.notes["part_S"] = "not built"
         return
     c03_s.shard(ctx)
+    # the same end-to-end reassembly scenarios as C01 part S, on an encrypted session (real connection behind the real Noise helper)
+    from vf.props import c01_s  # noqa: PLC0415
+
+    c01_s.shard(ctx, framing="noise", prop="C03")
 
 
 def interleaved(ctx: Ctx) -> None:
@@ -353,6 +357,15 @@ def interleaved(ctx: Ctx) -> None:
 
 
 def replay(spec: dict[str, Any]) -> int:
+    if spec["case"].get("part") == "S" and spec["case"].get("framing") == "noise" and ("plan" in spec["case"] or "write_buffer" in spec["case"]):
+        from vf.common import Ctx as _Ctx  # noqa: PLC0415
+        from vf.props import c01_s  # noqa: PLC0415
+
+        c = _Ctx("C03", 0, 1, "quick", 0)
+        c01_s.shard(c, framing="noise", prop="C03")
+        for v in c.res.violations:
+            print(v["key"], v["what"])
+        return 1 if c.res.violations else 0
     if spec["case"].get("interleaved"):
         c_ = spec["case"]
         sess = [(os.urandom(32), b"dev", [(ty, os.urandom(n)) for ty, n in ms], tuple(cs)) for ms, cs in zip(c_["msgs"], c_["cuts"])]
